@@ -645,6 +645,21 @@ func Run(tp *tape.Tape, env *engine.Env) *engine.Outcome {
 		}
 	default:
 		if base.err != nil {
+			if m.prop == "C02" {
+				// whatever made the baseline fail: does the SAME build succeed when modules, paths, rules and
+				// walks come in another order? Then the outcome depends on the order, which is C02's subject
+				// (if every order fails alike the problem is the generator's or another property's).
+				s.FIFO, s.Unhashed = true, true
+				for k := 0; k < 3; k++ {
+					m.permuteWalk, m.permuteMods, m.permuteLists = k != 1, k != 2, true
+					if res := m.run(true); res.err == nil {
+						m.violate("schedule-independence", "baseline-failed-another-order-succeeds", "the build with everything listed in canonical order failed (%v); the same build with lists, modules and walks in another order succeeded", base.err)
+						break
+					}
+				}
+				s.FIFO, s.Unhashed = false, false
+				m.permuteWalk, m.permuteMods, m.permuteLists = false, false, false
+			}
 			s.Violate("harness-reference", "harness|baseline-failed", "fault-free baseline build failed: %v", base.err)
 			s.Drain()
 			return engine.FromSim(s)
